@@ -6,12 +6,17 @@ from pyab_experiment.codegen.python.python_generator import PythonCodeGen
 from pyab_experiment.data_structures.syntax_tree import ExperimentAST
 from pyab_experiment.language.grammar import ExperimentParser
 from pyab_experiment.language.lexer import ExperimentLexer
+from pyab_experiment.sly.lex import LexError
 
 
 def parse_source(text: str) -> ExperimentAST:
     lexer = ExperimentLexer()
     parser = ExperimentParser()
-    return parser.parse(lexer.tokenize(text))
+    ast = parser.parse(lexer.tokenize(text))
+    if type(lexer) is not ExperimentLexer:
+        # the text ended while the lexer was still inside a /* block comment
+        raise LexError("Unterminated block comment", "", len(text))
+    return ast
 
 
 def generate_code(text: str, expose_internal_fn: bool = False) -> str:
